@@ -225,11 +225,9 @@ def _check_gen(case, ctx):
 
     # writer round trip
     form = m['id']['form']
-    if form == 'action' and not case.get('strict'):
-        # finding C10-F1: the writer emits "ACTION:Class:action.name", which the parser
-        # does not accept as an identifier; excluded by construction, counted
-        ctx.label('excluded:action-writer-roundtrip')
-    else:
+    # (finding C10-F1, the writer emitting "ACTION:Class:action.name", was repaired in /repo
+    # commit feedac5; action identifiers are round-tripped like every other form)
+    if True:
         for i, block in enumerate(blocks):
             w = _written(block, bool(case.get('windent')))
             try:
